@@ -8,7 +8,7 @@ import sys
 
 from hypothesis import strategies as st
 
-from pbt.common import env, runner, snap, fresh as F, spec as S, gen as G
+from pbt.common import env, runner, snap, fresh as F, spec as S, gen as G, edits as E, machine as M
 
 env.import_efootprint()
 
@@ -21,7 +21,9 @@ LEVEL_NOTE = "hash seeds are sampled (32 of 2^32), not exhausted"
 RULE = ("Hypothesis draws a system spec, a permutation of the creation order, id seeds, and permutations of "
         "system.usage_patterns, of each devices list and of the jobs of each step. Variants are built in-process and in "
         "two persistent worker processes with other PYTHONHASHSEED values; every calculated attribute of every variant "
-        "must equal the base build (rtol 1e-9: float re-association only). Non-trivial = >=2 usage patterns sharing a "
+        "must equal the base build (rtol 1e-9: float re-association only). 0-2 input edits / whole-list assignments are "
+        "then applied to the base model and to the variant built in another order with other ids, which must still "
+        "agree after each. Non-trivial = >=2 usage patterns sharing a "
         "job, server or network (where set/dict iteration order can matter); distinct by spec hash.")
 ASSUMPTIONS = ["same-step jobs, devices and usage patterns are order-irrelevant (steps of a journey are not)",
                "float re-association noise bounded by 1e-9 relative"]
@@ -75,8 +77,15 @@ def cases(draw):
             perms[n] = draw(st.permutations(e["devices"]))
         if e["cls"] == "UsageJourneyStep" and len(e["jobs"]) > 1:
             perms[n] = draw(st.permutations(e["jobs"]))
+    # ... and the numbers must stay independent of all that after edits (input-only edits and whole-list assignments:
+    # they mean the same thing whatever the order of the lists)
+    edits, cur = [], spec
+    for _ in range(draw(st.integers(0, 2))):
+        e = draw(G.simple_edit(cur))
+        edits.append(e)
+        cur = E.apply_spec(cur, e)
     return {"spec": spec, "id_seed": draw(st.integers(0, 2 ** 20)), "id_seed2": draw(st.integers(0, 2 ** 20)),
-            "order": list(order), "perms": {k: list(v) for k, v in perms.items()}}
+            "order": list(order), "perms": {k: list(v) for k, v in perms.items()}, "edits": edits}
 
 
 def variant_specs(case):
@@ -111,14 +120,46 @@ def check(case, ctx):
     if d:
         problems.append(("same_build_twice", "building the same model twice in one process differs: %s %s" % d[0]))
     variants = variant_specs(case)
+    built = {}
     for name, (vs, ids) in variants.items():
         objs, ex = F.build_case({"spec": vs, "id_seed": ids})
         if objs is None:
             problems.append((name, "variant %s cannot be built: %s" % (name, ex)))
             continue
+        built[name] = objs
         d = snap.compare(sbase, snap.snapshot(S.reachable(objs)))
         if d:
             problems.append((name, "variant %s: %d attribute(s) differ; first %s %s" % (name, len(d), d[0][0], d[0][1])))
+    if not problems and case.get("edits") and "both" in built:
+        # the same edits on the base model and on the variant built in another order with other ids
+        cur_a, cur_b = spec, variants["both"][0]
+        for i, e in enumerate(case["edits"]):
+            ra = rb = None
+            try:
+                with M.watchdog():
+                    E.apply_live(base, e, cur_a)
+            except Exception as ex:
+                ra = ex
+            try:
+                with M.watchdog():
+                    E.apply_live(built["both"], e, cur_b)
+            except Exception as ex:
+                rb = ex
+            if (ra is None) != (rb is None):
+                problems.append(("after_edit", "edit %s %s on the base model and %s on the variant built in another "
+                                 "order (%s)" % (E.describe(e), "raises" if ra else "works",
+                                                 "raises" if rb else "works", ra or rb)))
+                break
+            if ra is not None:
+                break
+            cur_a, cur_b = E.apply_spec(cur_a, e), E.apply_spec(cur_b, e)
+            d = snap.compare(snap.snapshot(S.reachable(base)), snap.snapshot(S.reachable(built["both"])))
+            labels.append("compared_after_edit")
+            if d:
+                problems.append(("after_edit", "after edit %s the base model and the variant built in another order "
+                                 "with other ids differ on %d attribute(s); first %s %s" % (
+                                     E.describe(e), len(d), d[0][0], d[0][1])))
+                break
     if os.environ.get("VERIF_C19_NO_WORKERS") != "1":
         ws = workers_for(ctx.shard)
         for w, (name, (vs, ids)) in zip(ws, [("base", (spec, case["id_seed"])), ("both", variants["both"])]):
